@@ -107,7 +107,9 @@ def judge_shard(path, module="TraceJudge", cfg="TraceJudge.cfg", timeout=3600, x
         pr = subprocess.run(cmd, cwd=wd, capture_output=True, text=True, timeout=timeout, env=env)
         out = pr.stdout + pr.stderr
         if "Model checking completed. No error has been found." not in out:
-            tail = "\n".join(out.splitlines()[-40:])
+            lines = out.splitlines()
+            errs = [i for i, ln in enumerate(lines) if ln.startswith("Error")]
+            tail = "\n".join(lines[errs[0]:errs[0] + 25]) if errs else "\n".join(lines[-40:])
             raise MachineryError("TLC did not accept trace %s:\n%s" % (path, tail))
         bad = {}
         for tup in parse_tuples(out, "BAD"):
